@@ -1167,7 +1167,7 @@ class Machine(object):
         Returns:
             bool The truth value of all triggers combined with AND
         """
-        return all(getattr(model, trigger)(*args, **kwargs) for model in self.models)
+        return all([getattr(model, trigger)(*args, **kwargs) for model in self.models])
 
     def callbacks(self, funcs, event_data):
         """Triggers a list of callbacks"""
